@@ -67,6 +67,20 @@ def make_reducer(prop):
     return red
 
 
+def merge_orders(outs):
+    """One summary per configuration from the summaries of both sibling
+    orders: the first one that carries a failure, else the first."""
+    merged = []
+    for lst in outs:
+        pick = next((o for o in lst if o["fail"] is not None), lst[0])
+        if len(lst) > 1:
+            pick = dict(pick)
+            pick["states"] = sum(o["states"] for o in lst)
+            pick["transitions"] = sum(o["transitions"] for o in lst)
+        merged.append(pick)
+    return merged
+
+
 def sample_of(cfg):
     run = D.drive(cfg)
     return {"config": cfg.as_json(), "actions": len(run.actions),
@@ -79,7 +93,7 @@ def check(prop, tier):
     cfgs = D.box(N, tier)
     res.bounds = {"N_max": N, "configs": len(cfgs), "tier": tier,
                   "passes_max": 3 if tier == "quick" else 5}
-    out = D.run_box(cfgs, make_reducer(prop))
+    out = merge_orders(D.run_box(cfgs, make_reducer(prop), orders=2))
     unbuilt = 0
     nontriv = 0
     for cfg, o in zip(cfgs, out):
